@@ -1,7 +1,7 @@
 SPECIFICATION Spec
 CONSTANTS
-  Alphabet = {"a", "b", ".", "$", "*", ">"}
-  MaxLen = 5
+  Alphabet = {"a", "b", ".", "$", "*", ">", "?"}
+  MaxLen = 4
   MaxNameToks = 4
 INVARIANTS RoundTrip CoverSemantics Reflexive Validity IdRoundTrip
 CHECK_DEADLOCK FALSE
